@@ -40,7 +40,7 @@ import json,sys
 pid,src,caught,files,tests,un,ch=sys.argv[1:8]
 try: m=json.load(open(f"{src}/meta.json"))
 except Exception: m={}
-m["property"]=pid.split("_")[0]
+m["property"]=__import__("re").match(r"(C\d+)", pid).group(1)
 m["confirmed"]={"patch_applies_to_repo_head":True,"imports":True,"ruff_mypy_clean_on_touched_files":True,
   "existing_tests_run":tests,"no_existing_test_fails_only_with_the_change":True,"existing_tests_note":"failing ids compared with and without the change; ids failing only with it were re-run to exclude load flakes, none persisted",
   "demo_rc_unchanged":int(un),"demo_rc_changed":int(ch),"how":"tools/confirm_seed.sh in a scratch git worktree of /repo HEAD"}
